@@ -6,5 +6,5 @@ CONSTANTS
   QCaps = {1, 2}
   AtomicLast = FALSE
 VIEW View
-INVARIANTS NoPanic ClosedAtMostOnce NoDuplicates CloseIsLast Complete
+INVARIANTS WaitMeansDone NoPanic ClosedAtMostOnce NoDuplicates CloseIsLast Complete
 CHECK_DEADLOCK TRUE
